@@ -274,9 +274,16 @@ def _repair(R, reference, probe_all):
         pass
     if probe_all() != reference:
         # drop the cached parsers: grammar constants are rebuilt
-        for k in m.lookup_parsers:
-            for a in m.lookup_parsers[k]:
-                m.lookup_parsers[k][a] = None
+        try:
+            for k in m.lookup_parsers:
+                for a in m.lookup_parsers[k]:
+                    m.lookup_parsers[k][a] = None
+        except Exception:
+            # the cache is the package's private business: when it cannot be emptied this way, a fresh import does it
+            import importlib, sys
+            for name in [n for n in sys.modules if n == "mo_sql_parsing" or n.startswith("mo_sql_parsing.")]:
+                del sys.modules[name]
+            R.m = importlib.import_module("mo_sql_parsing")
         if probe_all() != reference:
             raise C.InfraError("library state could not be restored after a leaking mutation; rerun to continue")
 
